@@ -771,7 +771,32 @@ def ob_dispatch():
                   and "PowersOfX const&" in calls[1][0] and same(calls[1][1][0], args[0]) and same(calls[1][1][1], args[1]) and same(calls[1][1][2], calls[0][1][0]))
         if not ok:
             raise Violation("dispatch:" + label, "%s does not dispatch as expected: %r" % (label, [c[0][:70] for c in calls]), {})
-    return {"queries": len(want), "paths": len(want), "functions": fns, "sample": "static dispatch of the 256-bit entry points"}
+    # cofactor-width entry points (128-bit for G1, 512-bit for G2; instantiated by harness/inst_curve.cpp): their base points are arbitrary
+    # curve points, so they must go straight to a routine that does not use the order-r eigenvalue nor reduce the scalar modulo r:
+    # multiply_wnaf / multiply_doubleadd of the same scalar width, on the same operands.
+    P2 = prog()
+    wide = [("G1::multiply<G1Affine>(BigInt<128>)", r"void " + B + r"G1::multiply<" + B + r"G1Affine>\(.*BigInt<128> const&\)", 128),
+            ("G1::multiply<G1>(BigInt<128>)", r"void " + B + r"G1::multiply<" + B + r"G1>\(.*BigInt<128> const&\)", 128),
+            ("G2::multiply<G2Affine>(BigInt<512>)", r"void " + B + r"G2::multiply<" + B + r"G2Affine>\(.*BigInt<512> const&\)", 512),
+            ("G2::multiply<G2>(BigInt<512>)", r"void " + B + r"G2::multiply<" + B + r"G2>\(.*BigInt<512> const&\)", 512)]
+    for label, rx, bits in wide:
+        cands = [n for n in P2.find(rx) if not P2.fn[n].is_decl]
+        if len(cands) != 1:
+            raise Inconclusive("%s: %d definitions" % (label, len(cands)))
+        I = eir.Interp(P2)
+        calls = []
+        I.add_intercept(r".*", lambda I_, name, args, site, calls=calls: calls.append((I_.prog.demangled.get(name, name), list(args))), "callee")
+        args = [Ptr(Obj("arg%d" % i, 1024, "arg", 16), 0) for i in range(3)]
+        I.call_function(P2.fn[cands[0]], list(args))
+        fns.append(P2.demangled[cands[0]][:90])
+        real = [c for c in calls if not c[0].startswith("llvm.")]
+        ok = (len(real) == 1 and ("::multiply_wnaf<" in real[0][0] or "::multiply_doubleadd<" in real[0][0]) and "BigInt<%d>" % bits in real[0][0]
+              and len(real[0][1]) >= 3 and all(isinstance(x, Ptr) and x.obj is y.obj and x.off == y.off for x, y in zip(real[0][1][:3], args)))
+        if not ok:
+            raise Violation("dispatch:" + label, "%s (base: any curve point, scalar: any %d-bit value) does not go straight to multiply_wnaf/multiply_doubleadd of "
+                            "that width on its own operands; it calls %r (the 256-bit G1/G2 multiply uses the order-r eigenvalue and is only [k]P on the order-r subgroup)"
+                            % (label, bits, [c[0][:80] for c in real]), {"calls": [c[0] for c in real]})
+    return {"queries": len(want) + len(wide), "paths": len(want) + len(wide), "functions": fns, "sample": "static dispatch of the 256-bit and of the cofactor-width entry points"}
 
 
 def ob_eigen():
